@@ -1,2 +1,202 @@
+/* ops_mul.c — C01 operations.  Internal routines are observed with link-time
+   wrapping (-Wl,--wrap=...): which multiplication algorithm ran, and the FFT
+   (depth, w) chosen by mpn_mul_fft_main. */
 #include "common.h"
-const op_t ops_mul[] = { {NULL, NULL} };
+
+/* ---- regime observation ------------------------------------------------ */
+static unsigned long regime;            /* bit set per routine entered during the case */
+static long fft_kind, fft_depth, fft_w; /* last FFT entry: 1 trunc, 2 mfa */
+enum { R_BASECASE, R_KARA, R_TOOM3N, R_TOOM3, R_TOOM32, R_TOOM42, R_TOOM4N, R_TOOM4, R_TOOM53, R_TOOM8H,
+       R_SQRBASE, R_KARASQR, R_TOOM3SQR, R_TOOM4SQR, R_TOOM8SQR, R_FFTMAIN, R_FFTTRUNC, R_FFTMFA };
+static const char *rnames[] = { "basecase", "kara", "toom3n", "toom3", "toom32", "toom42", "toom4n", "toom4", "toom53", "toom8h",
+       "sqrbase", "karasqr", "toom3sqr", "toom4sqr", "toom8sqr", "fftmain", "ffttrunc", "fftmfa" };
+#define NREG 18
+static void out_regime(void)
+{
+  char buf[256]; size_t l = 0;
+  l += (size_t) snprintf(buf + l, sizeof buf - l, "#r=");
+  int first = 1;
+  for (int i = 0; i < NREG; i++) if (regime & (1UL << i)) {
+    l += (size_t) snprintf(buf + l, sizeof buf - l, "%s%s", first ? "" : "+", rnames[i]); first = 0; }
+  if (first) l += (size_t) snprintf(buf + l, sizeof buf - l, "none");
+  outs(buf);
+}
+
+#define WRAPV(sym, bit, proto, args) \
+  void __real_##sym proto; void __wrap_##sym proto { regime |= 1UL << (bit); __real_##sym args; }
+WRAPV(__gmpn_mul_basecase, R_BASECASE, (mp_ptr r, mp_srcptr u, mp_size_t un, mp_srcptr v, mp_size_t vn), (r, u, un, v, vn))
+WRAPV(__gmpn_kara_mul_n, R_KARA, (mp_ptr r, mp_srcptr x, mp_srcptr y, mp_size_t n, mp_ptr t), (r, x, y, n, t))
+WRAPV(__gmpn_toom3_mul_n, R_TOOM3N, (mp_ptr r, mp_srcptr x, mp_srcptr y, mp_size_t n, mp_ptr t), (r, x, y, n, t))
+WRAPV(__gmpn_toom3_mul, R_TOOM3, (mp_ptr r, mp_srcptr x, mp_size_t xn, mp_srcptr y, mp_size_t yn, mp_ptr t), (r, x, xn, y, yn, t))
+WRAPV(__gmpn_toom32_mul, R_TOOM32, (mp_ptr r, mp_srcptr x, mp_size_t xn, mp_srcptr y, mp_size_t yn), (r, x, xn, y, yn))
+WRAPV(__gmpn_toom42_mul, R_TOOM42, (mp_ptr r, mp_srcptr x, mp_size_t xn, mp_srcptr y, mp_size_t yn), (r, x, xn, y, yn))
+WRAPV(__gmpn_toom4_mul_n, R_TOOM4N, (mp_ptr r, mp_srcptr x, mp_srcptr y, mp_size_t n), (r, x, y, n))
+WRAPV(__gmpn_toom4_mul, R_TOOM4, (mp_ptr r, mp_srcptr x, mp_size_t xn, mp_srcptr y, mp_size_t yn), (r, x, xn, y, yn))
+WRAPV(__gmpn_toom53_mul, R_TOOM53, (mp_ptr r, mp_srcptr x, mp_size_t xn, mp_srcptr y, mp_size_t yn), (r, x, xn, y, yn))
+WRAPV(__gmpn_toom8h_mul, R_TOOM8H, (mp_ptr r, mp_srcptr x, mp_size_t xn, mp_srcptr y, mp_size_t yn), (r, x, xn, y, yn))
+WRAPV(__gmpn_sqr_basecase, R_SQRBASE, (mp_ptr r, mp_srcptr x, mp_size_t n), (r, x, n))
+WRAPV(__gmpn_kara_sqr_n, R_KARASQR, (mp_ptr r, mp_srcptr x, mp_size_t n, mp_ptr t), (r, x, n, t))
+WRAPV(__gmpn_toom3_sqr_n, R_TOOM3SQR, (mp_ptr r, mp_srcptr x, mp_size_t n, mp_ptr t), (r, x, n, t))
+WRAPV(__gmpn_toom4_sqr_n, R_TOOM4SQR, (mp_ptr r, mp_srcptr x, mp_size_t n), (r, x, n))
+WRAPV(__gmpn_toom8_sqr_n, R_TOOM8SQR, (mp_ptr r, mp_srcptr x, mp_size_t n), (r, x, n))
+WRAPV(__gmpn_mul_fft_main, R_FFTMAIN, (mp_ptr r, mp_srcptr x, mp_size_t xn, mp_srcptr y, mp_size_t yn), (r, x, xn, y, yn))
+void __real___gmpn_mul_trunc_sqrt2(mp_ptr, mp_srcptr, mp_size_t, mp_srcptr, mp_size_t, mp_bitcnt_t, mp_bitcnt_t);
+void __wrap___gmpn_mul_trunc_sqrt2(mp_ptr r, mp_srcptr a, mp_size_t an, mp_srcptr b, mp_size_t bn, mp_bitcnt_t depth, mp_bitcnt_t w)
+{ regime |= 1UL << R_FFTTRUNC; fft_kind = 1; fft_depth = (long)depth; fft_w = (long)w; __real___gmpn_mul_trunc_sqrt2(r, a, an, b, bn, depth, w); }
+void __real___gmpn_mul_mfa_trunc_sqrt2(mp_ptr, mp_srcptr, mp_size_t, mp_srcptr, mp_size_t, mp_bitcnt_t, mp_bitcnt_t);
+void __wrap___gmpn_mul_mfa_trunc_sqrt2(mp_ptr r, mp_srcptr a, mp_size_t an, mp_srcptr b, mp_size_t bn, mp_bitcnt_t depth, mp_bitcnt_t w)
+{ regime |= 1UL << R_FFTMFA; fft_kind = 2; fft_depth = (long)depth; fft_w = (long)w; __real___gmpn_mul_mfa_trunc_sqrt2(r, a, an, b, bn, depth, w); }
+
+/* ---- residues of a limb vector modulo the four oracle moduli (own arithmetic) ---- */
+static const mp_limb_t MODS[4] = { 2305843009213693951UL, 18446744073709551557UL, 18446744073709551533UL, 4611686018427387847UL };
+static mp_limb_t limbs_mod(mp_srcptr p, mp_size_t n, mp_limb_t m)
+{
+  unsigned __int128 r = 0;
+  for (mp_size_t i = n - 1; i >= 0; i--) r = ((r << 64) | p[i]) % m;
+  return (mp_limb_t) r;
+}
+void out_residues(mp_srcptr p, mp_size_t n) { for (int i = 0; i < 4; i++) outul(limbs_mod(p, n, MODS[i])); }
+
+/* mpn_mul_1 n U v ovl(0 sep,1 in place) */
+static void op_mul_1(int argc, char **argv)
+{
+  (void)argc; mp_size_t n = arg_l(argv[1]); mp_limb_t v = arg_ul(argv[3]); int ovl = (int)arg_l(argv[4]);
+  mp_ptr up = gbuf_alloc(n), rp = ovl ? up : gbuf_alloc(n);
+  parse_limbs(argv[2], up, n);
+  mp_limb_t c = mpn_mul_1(rp, up, n, v);
+  out_limbs(rp, n); outul(c);
+  if (!gbuf_ok(up, n) || !gbuf_ok(rp, n)) outs("REDZONE");
+  if (!ovl) gbuf_free(rp);
+  gbuf_free(up);
+}
+/* mpn_addmul_1 / mpn_submul_1: n R U v same(1: up == rp) */
+static void do_aorsmul_1(char **argv, int sub)
+{
+  mp_size_t n = arg_l(argv[1]); mp_limb_t v = arg_ul(argv[4]); int same = (int)arg_l(argv[5]);
+  mp_ptr rp = gbuf_alloc(n), up = same ? rp : gbuf_alloc(n);
+  if (!same) parse_limbs(argv[3], up, n);
+  parse_limbs(argv[2], rp, n);
+  mp_limb_t c = sub ? mpn_submul_1(rp, up, n, v) : mpn_addmul_1(rp, up, n, v);
+  out_limbs(rp, n); outul(c);
+  if (!gbuf_ok(up, n) || !gbuf_ok(rp, n)) outs("REDZONE");
+  if (!same) gbuf_free(up);
+  gbuf_free(rp);
+}
+static void op_addmul_1(int c, char **v) { (void)c; do_aorsmul_1(v, 0); }
+static void op_submul_1(int c, char **v) { (void)c; do_aorsmul_1(v, 1); }
+
+/* generic two-operand product: kind selects the entry point.
+   args: un U vn V same ; exact output (value, high limb) or residues when big != 0 */
+enum { K_MUL, K_MUL_N, K_SQR, K_BASECASE, K_KARA, K_FFTMAIN };
+static void do_mul(char **argv, int kind, int big)
+{
+  mp_size_t un = arg_l(argv[1]), vn = arg_l(argv[3]); int same = (int)arg_l(argv[5]);
+  mp_ptr up = gbuf_alloc(un), vp = same ? up : gbuf_alloc(vn), rp = gbuf_alloc(un + vn);
+  parse_limbs(argv[2], up, un);
+  if (!same) parse_limbs(argv[4], vp, vn);
+  mp_limb_t hi = 0; regime = 0; fft_kind = 0;
+  switch (kind) {
+    case K_MUL: hi = mpn_mul(rp, up, un, vp, vn); break;
+    case K_MUL_N: mpn_mul_n(rp, up, vp, un); hi = rp[2*un-1]; break;
+    case K_SQR: mpn_sqr(rp, up, un); hi = rp[2*un-1]; break;
+    case K_BASECASE: mpn_mul_basecase(rp, up, un, vp, vn); hi = rp[un+vn-1]; break;
+    case K_KARA: { mp_ptr tp = gbuf_alloc(2*un + 64 + 2*GMP_LIMB_BITS);
+                   mpn_kara_mul_n(rp, up, vp, un, tp);
+                   if (!gbuf_ok(tp, 2*un + 64 + 2*GMP_LIMB_BITS)) outs("REDZONE-TP");
+                   gbuf_free(tp); hi = rp[2*un-1]; break; }
+    case K_FFTMAIN: mpn_mul_fft_main(rp, up, un, vp, vn); hi = rp[un+vn-1]; break;
+  }
+  if (kind == K_FFTMAIN) { outl(fft_kind); outl(fft_depth); outl(fft_w); }
+  if (big) out_residues(rp, un + vn); else { out_limbs(rp, un + vn); outul(hi); }
+  if (!gbuf_ok(up, un) || !gbuf_ok(vp, vn) || !gbuf_ok(rp, un + vn)) outs("REDZONE");
+  out_regime();
+  gbuf_free(rp); if (!same) gbuf_free(vp); gbuf_free(up);
+}
+static void op_mul(int c, char **v) { (void)c; do_mul(v, K_MUL, 0); }
+static void op_mul_big(int c, char **v) { (void)c; do_mul(v, K_MUL, 1); }
+static void op_mul_n(int c, char **v) { (void)c; do_mul(v, K_MUL_N, 0); }
+static void op_mul_n_big(int c, char **v) { (void)c; do_mul(v, K_MUL_N, 1); }
+static void op_sqr(int c, char **v) { (void)c; do_mul(v, K_SQR, 0); }
+static void op_sqr_big(int c, char **v) { (void)c; do_mul(v, K_SQR, 1); }
+static void op_basecase(int c, char **v) { (void)c; do_mul(v, K_BASECASE, 0); }
+static void op_kara(int c, char **v) { (void)c; do_mul(v, K_KARA, 0); }
+static void op_fftmain(int c, char **v) { (void)c; do_mul(v, K_FFTMAIN, 1); }
+
+/* mpz_mul U V alias (0 none,1 w=u,2 w=v,3 u=v,4 w=u=v) [big] */
+static void do_zmul(char **argv, int big)
+{
+  mpz_t u, v, w, u0, v0; int al = (int)arg_l(argv[3]);
+  parse_z(argv[1], u); parse_z(argv[2], v); mpz_init(w); mpz_realloc2(w, 1);
+  mpz_init_set(u0, u); mpz_init_set(v0, v);
+  mpz_ptr pu = u, pv = v, pw = w;
+  if (al == 1) pw = u; else if (al == 2) pw = v; else if (al == 3) pv = u; else if (al == 4) { pv = u; pw = u; }
+  regime = 0;
+  mpz_mul(pw, pu, pv);
+  if (big) { outl(SIZ(pw) < 0 ? -1 : SIZ(pw) > 0); out_residues(PTR(pw), ABSIZ(pw)); if (!z_wf(pw)) outs("BADFORMAT"); }
+  else out_z(pw);
+  if (pw != u && mpz_cmp(u, u0) != 0) outs("SRCMOD");
+  if (pw != v && pv == v && mpz_cmp(v, v0) != 0) outs("SRCMOD");
+  out_regime();
+  mpz_clear(u); mpz_clear(v); mpz_clear(w); mpz_clear(u0); mpz_clear(v0);
+}
+static void op_zmul(int c, char **v) { (void)c; do_zmul(v, 0); }
+static void op_zmul_big(int c, char **v) { (void)c; do_zmul(v, 1); }
+
+/* mpz_mul_ui U v alias ; mpz_mul_si U v alias */
+static void op_zmul_ui(int argc, char **argv)
+{
+  (void)argc; mpz_t u, w; int al = (int)arg_l(argv[3]);
+  parse_z(argv[1], u); mpz_init(w); mpz_realloc2(w, 1);
+  mpz_ptr pw = al ? u : w;
+  mpz_mul_ui(pw, u, arg_ul(argv[2])); out_z(pw);
+  mpz_clear(u); mpz_clear(w);
+}
+static void op_zmul_si(int argc, char **argv)
+{
+  (void)argc; mpz_t u, w; int al = (int)arg_l(argv[3]);
+  parse_z(argv[1], u); mpz_init(w); mpz_realloc2(w, 1);
+  mpz_ptr pw = al ? u : w;
+  mpz_mul_si(pw, u, arg_l(argv[2])); out_z(pw);
+  mpz_clear(u); mpz_clear(w);
+}
+/* mpz_addmul / mpz_submul: W X Y alias (0 none, 1 w=x, 2 w=y, 3 x=y, 4 w=x=y) */
+static void do_zaorsmul(char **argv, int sub)
+{
+  mpz_t w, x, y, x0, y0; int al = (int)arg_l(argv[4]);
+  parse_z(argv[1], w); parse_z(argv[2], x); parse_z(argv[3], y);
+  mpz_init_set(x0, x); mpz_init_set(y0, y);
+  mpz_realloc2(w, (ABSIZ(w) ? ABSIZ(w) : 1) * GMP_NUMB_BITS);
+  mpz_ptr pw = w, px = x, py = y;
+  if (al == 1) pw = x; else if (al == 2) pw = y; else if (al == 3) py = x; else if (al == 4) { py = x; pw = x; }
+  if (sub) mpz_submul(pw, px, py); else mpz_addmul(pw, px, py);
+  out_z(pw);
+  if (pw != x && mpz_cmp(x, x0) != 0) outs("SRCMOD");
+  if (pw != y && py == y && mpz_cmp(y, y0) != 0) outs("SRCMOD");
+  mpz_clear(w); mpz_clear(x); mpz_clear(y); mpz_clear(x0); mpz_clear(y0);
+}
+static void op_zaddmul(int c, char **v) { (void)c; do_zaorsmul(v, 0); }
+static void op_zsubmul(int c, char **v) { (void)c; do_zaorsmul(v, 1); }
+/* mpz_addmul_ui / submul_ui: W X y alias(0 none, 1 w=x) */
+static void do_zaorsmul_ui(char **argv, int sub)
+{
+  mpz_t w, x, x0; int al = (int)arg_l(argv[4]);
+  parse_z(argv[1], w); parse_z(argv[2], x); mpz_init_set(x0, x);
+  mpz_realloc2(w, (ABSIZ(w) ? ABSIZ(w) : 1) * GMP_NUMB_BITS);
+  mpz_ptr pw = al ? x : w;
+  if (sub) mpz_submul_ui(pw, x, arg_ul(argv[3])); else mpz_addmul_ui(pw, x, arg_ul(argv[3]));
+  out_z(pw);
+  if (pw != x && mpz_cmp(x, x0) != 0) outs("SRCMOD");
+  mpz_clear(w); mpz_clear(x); mpz_clear(x0);
+}
+static void op_zaddmul_ui(int c, char **v) { (void)c; do_zaorsmul_ui(v, 0); }
+static void op_zsubmul_ui(int c, char **v) { (void)c; do_zaorsmul_ui(v, 1); }
+
+const op_t ops_mul[] = {
+  {"mpn_mul_1", op_mul_1}, {"mpn_addmul_1", op_addmul_1}, {"mpn_submul_1", op_submul_1},
+  {"mpn_mul", op_mul}, {"mpn_mul_big", op_mul_big}, {"mpn_mul_n", op_mul_n}, {"mpn_mul_n_big", op_mul_n_big},
+  {"mpn_sqr", op_sqr}, {"mpn_sqr_big", op_sqr_big}, {"mpn_mul_basecase", op_basecase}, {"mpn_kara_mul_n", op_kara},
+  {"mpn_mul_fft_main", op_fftmain},
+  {"mpz_mul", op_zmul}, {"mpz_mul_big", op_zmul_big}, {"mpz_mul_ui", op_zmul_ui}, {"mpz_mul_si", op_zmul_si},
+  {"mpz_addmul", op_zaddmul}, {"mpz_submul", op_zsubmul}, {"mpz_addmul_ui", op_zaddmul_ui}, {"mpz_submul_ui", op_zsubmul_ui},
+  {NULL, NULL}
+};
